@@ -519,6 +519,7 @@ fn codec_instances(ctx: &Ctx, len: usize) -> (u64, u64) {
 }
 
 pub fn run_c19(ctx: &Ctx) -> i32 {
+    crate::tree::puppet::RECORD_ENV.store(true, std::sync::atomic::Ordering::Relaxed);
     let out = explore(ctx, true, false);
     // (c) the whole bounded exploration repeated in a second OS process with another thread count
     let exe = std::env::current_exe().unwrap();
@@ -607,17 +608,20 @@ pub fn env_transcripts() -> (Vec<Vec<DOp>>, Vec<Vec<String>>, Vec<Vec<String>>) 
 }
 
 pub fn print_env_transcripts() {
+    crate::tree::puppet::RECORD_ENV.store(true, std::sync::atomic::Ordering::Relaxed);
     let (_, direct, deep) = env_transcripts();
     println!("ENVTRANSCRIPTS {}", serde_json::to_string(&json!({"direct": direct, "deep": deep})).unwrap());
 }
 
 pub fn print_digest(tier: Tier) {
+    crate::tree::puppet::RECORD_ENV.store(true, std::sync::atomic::Ordering::Relaxed);
     let ctx = Ctx::new("C19", tier);
     let out = explore(&ctx, false, true);
     println!("DIGEST {:016x}", out.digest);
 }
 
 pub fn replay_c19(ctx: &Ctx, _case: &Value) {
+    crate::tree::puppet::RECORD_ENV.store(true, std::sync::atomic::Ordering::Relaxed);
     // the whole exploration is cheap: re-run it
     let _ = explore(ctx, true, false);
 }
